@@ -133,6 +133,19 @@ def run(ck):
         chain = lib.reaches_external(prog, m, {"epoll_ctl"})
         ck.ob("C07-R3", "Reactor::modifyFd%s->epoll_ctl" % m.d.get("sig", ""), chain is not None, m.loc, m,
               "; ".join(chain) if chain else "no call chain to epoll_ctl", path=chain)
+    # ... on every path, all the way down: every registration request that reaches the poller ends in epoll_ctl.  With edge-triggered
+    # registrations it is the epoll_ctl(MOD) itself -- even with an unchanged mask -- that makes the kernel report a descriptor that is
+    # already writable; a request that is dropped on the way as "nothing to change" leaves a parked write parked for ever
+    summ_ep = lib.Summaries(prog)
+    must_ctl = summ_ep.lift_must(lambda e: e["k"] == "call" and (e.get("callee") or "") == "epoll_ctl", "epoll_ctl")
+    for nm_ in ("addFd", "addFdOneShot", "rearmFd", "removeFd"):
+        for pf in prog.find("Pistache::Polling::Epoll::" + nm_, 1):
+            pf = prog.flat(pf)
+            loose = [x for x in cfg.exits_without(pf, must_ctl) if x.kind != "throw"]
+            ck.ob("C07-R3", "Epoll::%s/always-epoll_ctl" % nm_, not loose, pf.loc, pf,
+                  "every path of Epoll::%s reaches epoll_ctl" % nm_ if not loose else
+                  "Epoll::%s can return without calling epoll_ctl: the request to (re-)arm the descriptor is dropped, and an edge-triggered "
+                  "descriptor that is already ready is never reported again" % nm_)
     # R3c: runOnce re-enters poll after handleFds
     r = lib.single(prog, "Pistache::Aio::SyncImpl::runOnce")
     hf = [e for e in r.calls(lambda e: (e.get("callee") or "").endswith("SyncImpl::handleFds"))]
